@@ -28,14 +28,17 @@ def metaLoop (hd : Bytes) : Nat → Nat → R (List (Int × Int))
     .ok ((displacement, fontId) :: rest)
 
 /-- the `for i in range(nfonts)` loop: `metadata[i]` (IndexError when the capacity is smaller), name length and
-    name at the (signed) displacement inside the name area -/
-def fontLoop (dec : Dec) (bd : Bytes) : Nat → List (Int × Int) → R (List FontInfo)
-  | 0, _ => .ok []
-  | _+1, [] => .error .index
-  | n+1, (disp, fontId) :: ms => do
+    name at the (signed) displacement inside the name area; `namesSize` accumulates the bytes of the names read so far and
+    must not exceed the name area (fix F52: overlapping names are rejected) -/
+def fontLoop (dec : Dec) (bd : Bytes) : Nat → List (Int × Int) → Nat → R (List FontInfo)
+  | 0, _, _ => .ok []
+  | _+1, [], _ => .error .index
+  | n+1, (disp, fontId) :: ms, namesSize => do
     let nchars ← getSI .be 4 bd disp
-    let name ← dec (pySlice bd (disp + 4) (disp + 4 + nchars))
-    let rest ← fontLoop dec bd n ms
+    let nameData := pySlice bd (disp + 4) (disp + 4 + nchars)
+    if namesSize + nameData.length > bd.length then .error .value else
+    let name ← dec nameData
+    let rest ← fontLoop dec bd n ms (namesSize + nameData.length)
     .ok (⟨name, fontId⟩ :: rest)
 
 /-- fmap.parse_fmap_data -/
@@ -58,7 +61,7 @@ def parseFmap (dec : Dec) (d : Bytes) : R (List FontInfo) := do
   let _u8 ← getS .be 2 hd 24
   let _u9 ← getS .be 2 hd 26
   let metadata ← metaLoop hd nfontsCap.toNat 28
-  fontLoop dec bd nfonts.toNat metadata
+  fontLoop dec bd nfonts.toNat metadata 0
 
 def FontInfo.toJ (f : FontInfo) : J := .obj [("name", .str f.name), ("id", .int f.id)]
 
